@@ -13,7 +13,7 @@
   any supplier table) and EVERY schedule `sched : List Nat` — any poll order, including spurious
   polls of tasks that cannot progress and polls of ids that are no task.
 -/
-import MdProofs.Lemmas.OnceProgress
+import MdProofs.Lemmas.OnceWake
 namespace MdModel.Once
 open MdModel
 
@@ -242,5 +242,42 @@ example :
     measure cfg (exec cfg [0, 1, 1, 0] (init cfg)) ≤ 6 ∧
     allFin cfg (exec cfg ([0, 1, 1, 0] ++ [[1, 1, 0], [0, 1], [1, 0, 0], [0, 1], [0, 1], [1, 0]].flatten)
       (init cfg)) = true := by decide
+
+/-! ## 6. no lost wake-up: executors that only poll woken tasks cannot stall
+
+  The model carries, per task, the flag "my waker has fired since my last poll", set exactly as
+  `futures_util::lock::Mutex` does (unlock wakes the first slab entry if it is still `Waiting`; a
+  failed poll re-registers) and as a suspending supplier does (it wakes its own task). -/
+
+/-- **C12.5** `no_lost_wakeup`: in every reachable state in which some task is unfinished there is
+    a task that is WOKEN, unfinished, and whose poll strictly decreases the measure. Hence
+    `join_all`, tokio, or any executor that polls only woken tasks always has a task to poll,
+    and polling it makes progress. -/
+theorem no_lost_wakeup (cfg : Cfg) (sched : List Nat)
+    (hnf : allFin cfg (exec cfg sched (init cfg)) = false) :
+    ∃ t, t < cfg.ntasks ∧ ((exec cfg sched (init cfg)).task t).woken = true ∧
+      isFin (exec cfg sched (init cfg)) t = false ∧
+      measure cfg (poll cfg t (exec cfg sched (init cfg))) < measure cfg (exec cfg sched (init cfg)) := by
+  obtain ⟨t, ht, hw, hf, hnb⟩ :=
+    exists_woken_unblocked (invA_reach cfg sched) (invW_reach cfg sched) hnf
+  exact ⟨t, ht, hw, by simp [isFin, hf], measure_poll_lt cfg t _ ht hf hnb⟩
+
+/-- the set a waker-respecting executor chooses from is never empty before the end -/
+theorem runnable_nonempty (cfg : Cfg) (sched : List Nat)
+    (hnf : allFin cfg (exec cfg sched (init cfg)) = false) :
+    runnable cfg (exec cfg sched (init cfg)) ≠ [] := by
+  obtain ⟨t, ht, hw, hf, _⟩ := no_lost_wakeup cfg sched hnf
+  intro he
+  have : t ∈ runnable cfg (exec cfg sched (init cfg)) := by
+    simp only [runnable, List.mem_filter, List.mem_range, Bool.and_eq_true, Bool.not_eq_true']
+    exact ⟨ht, hw, hf⟩
+  rw [he] at this; cases this
+
+/-- non-vacuity: three tasks contend for one key; after the holder finished, the first waiter
+    (task 1) is the woken one, task 2 is not — and the chain of wake-ups continues when 1 runs. -/
+example :
+    let cfg : Cfg := ⟨[[5], [5], [5]], fun _ => ⟨1, .notFound⟩⟩
+    let s := exec cfg [0, 1, 2, 0] (init cfg)
+    allFin cfg s = false ∧ runnable cfg s = [1] ∧ runnable cfg (poll cfg 1 s) = [2] := by decide
 
 end MdModel.Once
